@@ -849,7 +849,50 @@ func c04ETagRestart(e *Env, rule string) {
 		e.R.Undecided(rule, q+":etag-restart", e.fpos(f), fmt.Sprintf("%d ETag reads and no bytes.Equal: the comparison of the two ETags has another shape", len(etagCalls)))
 		return
 	}
+	// value of a boolean expression over the two "ETag present" facts when both ETags are present
+	var evalBoth func(v ssa.Value, d int) (bool, bool)
+	evalBoth = func(v ssa.Value, d int) (bool, bool) {
+		if d > 6 {
+			return false, false
+		}
+		if b, isK := core.ConstBool(v); isK {
+			return b, true
+		}
+		switch x := v.(type) {
+		case *ssa.UnOp:
+			if x.Op == token.NOT {
+				r, known := evalBoth(x.X, d+1)
+				return !r, known
+			}
+		case *ssa.BinOp:
+			if x.Op != token.EQL && x.Op != token.NEQ {
+				return false, false
+			}
+			if core.IsErrorType(x.X.Type()) && (core.IsNilConst(x.Y) || core.IsNilConst(x.X)) {
+				ev := x.X
+				if core.IsNilConst(ev) {
+					ev = x.Y
+				}
+				src := errSource(ev)
+				for _, c := range etagCalls {
+					if src == c {
+						return x.Op == token.EQL, true // err == nil holds: the ETag is present
+					}
+				}
+				return false, false
+			}
+			l, okL := evalBoth(x.X, d+1)
+			r, okR := evalBoth(x.Y, d+1)
+			if okL && okR {
+				return (l == r) == (x.Op == token.EQL), true
+			}
+		}
+		return false, false
+	}
 	bothPresent := func(i *ssa.If, br bool) bool {
+		if v, known := evalBoth(i.Cond, 0); known {
+			return br == v
+		}
 		ev, nilBranch, ok := core.ErrNilEdge(i)
 		if !ok {
 			return true
@@ -1404,8 +1447,27 @@ func requestDeadlineGovernsReassembly(e *Env, rule string) {
 		return
 	}
 	n, bad := 0, ""
+	// the returns that yield a context's deadline – in the function itself or in the helper it returns through
+	type dret struct {
+		ret   *ssa.Return   // where the deadline is returned
+		fn    *ssa.Function // the function that return belongs to
+		outer *ssa.Return   // the return of getValidUntil that passes it on (nil: the same)
+	}
+	var cands []dret
 	for _, ret := range core.ReturnsOf(f) {
-		ex, ok := core.Resolve(core.RetVal(ret, 0)).(*ssa.Extract)
+		v := core.RetVal(ret, 0)
+		if c, isCall := v.(*ssa.Call); isCall {
+			if h := core.AbsorbedCallee(c); h != nil {
+				for _, hr := range core.ReturnsOf(h) {
+					cands = append(cands, dret{hr, h, ret})
+				}
+				continue
+			}
+		}
+		cands = append(cands, dret{ret, f, nil})
+	}
+	for _, cd := range cands {
+		ex, ok := core.Resolve(core.RetVal(cd.ret, 0)).(*ssa.Extract)
 		if !ok {
 			continue
 		}
@@ -1414,20 +1476,29 @@ func requestDeadlineGovernsReassembly(e *Env, rule string) {
 			continue
 		}
 		n++
-		for _, i := range core.IfsOf(f) {
-			for _, br := range []bool{true, false} {
-				if !core.OnlyViaEdge(i, br, ret) {
+		check := func(g *ssa.Function, at ssa.Instruction) {
+			for _, i := range core.IfsOf(g) {
+				if i.Parent() != g {
 					continue
 				}
-				cond, _ := core.StripNot(i.Cond)
-				if okEx, isEx := core.Resolve(cond).(*ssa.Extract); isEx && okEx.Tuple == ssa.Value(dl) && okEx.Index == 1 {
-					continue // has a deadline
+				for _, br := range []bool{true, false} {
+					if !core.OnlyViaEdge(i, br, at) {
+						continue
+					}
+					cond, _ := core.StripNot(i.Cond)
+					if okEx, isEx := core.Resolve(cond).(*ssa.Extract); isEx && okEx.Tuple == ssa.Value(dl) && okEx.Index == 1 {
+						continue // has a deadline
+					}
+					if c, isCmp := core.AsCmp(cond); isCmp && (core.IsNilConst(c.X) || core.IsNilConst(c.Y)) {
+						continue // there is a request
+					}
+					bad = "the request's deadline is used only under a further condition (" + e.pos(i) + "): a transfer whose request allows more time than the transfer timeout loses its partial body early and the last block is handed on alone"
 				}
-				if c, isCmp := core.AsCmp(cond); isCmp && (core.IsNilConst(c.X) || core.IsNilConst(c.Y)) {
-					continue // there is a request
-				}
-				bad = "the request's deadline is used only under a further condition (" + e.pos(i) + "): a transfer whose request allows more time than the transfer timeout loses its partial body early and the last block is handed on alone"
 			}
+		}
+		check(cd.fn, cd.ret)
+		if cd.outer != nil {
+			check(f, cd.outer)
 		}
 	}
 	e.R.Check(bad == "" && n >= 1, rule, q+":request-deadline-governs", e.fpos(f), "a request's deadline, when it has one, is the life time of its partial body – unconditionally", bad)
